@@ -25,8 +25,11 @@ def run(ctx, w):
     ctx.exhaustive = True
 
     # S1: reference comparison restricted to the swallowing states + the reference-free absorbing rule
-    c03.run_transition(ctx, w, tb, only_states=SWALLOW_STATES, rule="S1")
-    ctx.floor("S1", 8 * 20, "string-state cells")
+    # the whole transition table: besides the swallowing states this covers the
+    # bookkeeping that decides whether a later dispatch sees the private marker /
+    # intermediate that makes a sequence "unimplemented" (collect on 0x20-0x2F, 0x3C-0x3F)
+    c03.run_transition(ctx, w, tb, only_states=None, rule="S1")
+    ctx.floor("S1", 14 * 20, "transition cells")
     ctx.rule("S1a", "payload characters of a string are consumed: no function, no print, state unchanged")
     for st in STRING_STATES:
         for a in tb.atoms:
